@@ -924,6 +924,9 @@ def fam_ci_rewrite(g):
     if pos != "none":
         yield remote_change(g, pos, path)
     how = rng.choice(["squash", "squash", "rebase"])
+    if n > 1 and g.gated("ci_squash_taken_for_rebase"):
+        # known finding: a squash merge of a PR with several commits is taken for a rebase merge
+        how = "rebase"
     tool = rng.choice(["ci_local", "ci_local", "squash_authorship"]) if how == "squash" else "ci_local"
     g.ex.probe("ci.%s.%s" % (how, tool))
     yield {"op": "server_merge", "how": how, "head_ref": "feat", "base_ref": "main", "dt": g.dt()}
